@@ -184,6 +184,61 @@ def port_layer(chk: Check) -> tuple[dict, list[dict], list[dict]]:
     return cov, [sc for _, sc in rows], items
 
 
+# --------------------------------------------------------------------------------------------------
+# the same machinery reached through a real Gateway across its life cycle (spec/GwyLife.tla)
+
+def _gw_work(sc: dict) -> dict:
+    from harness import fakes, qos_gw
+    fakes.quiet_logging()
+    try:
+        return qos_gw.run_scenario(sc, stuck_s=float(os.environ.get("VERIF_STUCK_S", "10")))
+    except BaseException as err:  # noqa: BLE001
+        return {"harness_error": f"{type(err).__name__}: {err}"}
+
+
+def lifecycle(chk: Check, tier: str, with_model: bool) -> tuple[dict, list[dict], list[dict]]:
+    """Gateway.start() / stop() / start() again / a port that dies or stays silent, with callers using
+    Gateway.async_send_cmd() and Gateway.send_cmd() around every operation.  TLC checks the design (GwyLife instances);
+    every execution of the real Gateway is folded through the same operators (GwyLifeTrace: drift only) and is judged
+    by the C07-C09 contract together with the other traces."""
+    from harness import qos_gen
+    cov: dict = {}
+    if with_model:
+        inst = []
+        for cfg, want in (("MC_GwyLife_fix.cfg", []), ("MC_GwyLife_live.cfg", []),
+                          ("MC_GwyLife_x_active.cfg", ["NoTrip"]), ("MC_GwyLife_x_shield.cfg", ["Restartable"]),
+                          ("MC_GwyLife_x_overlap.cfg", ["CtxTracksConnection"])):
+            r = tlc.run_tlc("MC_GwyLife", cfg, workers=4, timeout=600)
+            inst.append({"cfg": cfg, "states": r.distinct, "transitions": r.states, "violated": r.violated,
+                         "expected_violated": want})
+            if sorted(r.violated) != sorted(want) or r.errors and not want:
+                chk.model_drift(f"TLC: {cfg}: violated {r.violated or r.errors[:1]}, expected {want}")
+        cov["model_check"] = inst
+    scs = qos_gen.lifecycle_scenarios(tier == "thorough")
+    if len(scs) < 8:
+        items = [_gw_work(s) for s in scs]
+    else:
+        with mp.get_context("fork").Pool(NPROC) as pool:
+            items = pool.map(_gw_work, scs, chunksize=4)
+    herr = [(i, it["harness_error"]) for i, it in enumerate(items) if "harness_error" in it]
+    if herr:
+        raise RuntimeError(f"{len(herr)} life-cycle scenarios failed in the harness, e.g. {herr[0]}")
+    res = tlc.validate_batch("GwyLifeTrace", items, workers=4, chunk=3000, timeout=1200)
+    for idx, f in res["rejects"][:12]:
+        chk.model_drift(f"life cycle: scenario {scs[idx]['seq']!r} #{idx}: {f[1]} at event {f[0]}")
+    if len(res["rejects"]) > 12:
+        chk.model_drift(f"life cycle: {len(res['rejects'])} executions in all are not behaviours of GwyLife")
+    ops = {}
+    for it in items:
+        for e in it["ev"]:
+            if e["e"] in ("StartRet", "StopRet"):
+                key = f"{e['e']}:{e['k']}{':' + e['s'] if e['s'] else ''}"
+                ops[key] = ops.get(key, 0) + 1
+    cov.update({"scenarios": len(scs), "sequences": sorted({s["seq"] for s in scs}), "executions_folded_by_GwyLifeTrace": res["n"],
+                "executions_with_drift": len(res["rejects"]), "fold_states": res["states"], "operation_outcomes": ops})
+    return cov, scs, items
+
+
 def judge(items: list[dict], workers=None) -> dict:
     return tlc.validate_batch("QosTrace", items, workers=workers, chunk=3000, timeout=1800)
 
@@ -202,10 +257,12 @@ def run_check(pid: str, tier: str, replay: str | None) -> None:
     if replay:
         obj = json.load(open(replay))
         sc = obj["replay"]["scenario"] if "replay" in obj else obj
-        item = _work(sc)
+        item = _gw_work(sc) if sc.get("via") == "gateway" else _work(sc)
         for e in item.get("ev", []):
             print({k: v for k, v in e.items() if v not in ("", 0) or k == "t"})
         res = judge([item], workers=2)
+        if sc.get("via") == "gateway":
+            print("GwyLifeTrace (drift):", tlc.validate_batch("GwyLifeTrace", [item], workers=2)["rejects"] or "none")
         print("verdict:", res["rejects"] or "accepted")
         raise SystemExit(1 if res["rejects"] else 0)
     t0 = time.time()
@@ -239,6 +296,8 @@ def run_check(pid: str, tier: str, replay: str | None) -> None:
     if pid == "C07":    # the layer above the state machine (decision table of modes / pause / impersonation notice)
         port_cov, pscs, pitems = port_layer(chk)
         scs, items = scs + pscs, items + pitems
+    life_cov, lscs, litems = lifecycle(chk, tier, with_model=(pid == "C09"))
+    scs, items = scs + lscs, items + litems
     n_nat = len(items)
     scs = scs + [{"director_replay": k} for k in range(len(dir_items))]
     items = items + dir_items
@@ -261,6 +320,7 @@ def run_check(pid: str, tier: str, replay: str | None) -> None:
         coverage={
             "states": mc["states"], "transitions": mc["transitions"], "model_check": mc,
             "port_layer": port_cov,
+            "gateway_life_cycle": life_cov,
             "spec_to_code": {"behaviours_replayed": nbeh, "boundaries_compared": compared, "behaviours_with_drift": ndrift},
             "traces_validated_against_impl": res["n"], "natural_scenarios": n_nat,
             "trace_validation_states": res["states"],
